@@ -14,7 +14,7 @@ from bvm import harness
 PROP = "C16"
 RULE = ("histories over 2..5 identities of {create Session-Id AVP, create Acct-Multi-Session-Id AVP, create typed message "
         "from identity, bulk origin update to same/other identity, advance clock by 0.3/1/5 s, Session-Id from bytes}; "
-        "exhaustive to length L (4 quick, 5 thorough) over a 14-operation alphabet with 2 identities and up to three live messages, random to length 400/2000; oracle: set "
+        "exhaustive to length L (4 quick, 5 thorough) over a 14-operation alphabet with 2 identities and up to three live messages, random to length 400/2000, a quarter of them in another clock era (2036 rollover, 2040, 2106) and/or after 2^16, 2^31, 2^32 ids; oracle: set "
         "membership over every id issued in the history + RFC 6733 8.8 grammar; distinct = distinct op sequences")
 
 IDS = ["hss.epc.example.org", "mme01.epc.example.org", "a", "x.y", "pgw.node-7.example.com"]
@@ -47,12 +47,19 @@ def install_clock():
 
 
 class History:
-    def __init__(self, acc, clock):
+    def __init__(self, acc, clock, start=None, uptime=0):
         from bromelia._internal_utils import SessionHandler
         self.acc = acc
         self.clock = clock
-        clock.t = _dt.datetime(2024, 5, 17, 12, 0, 0)
+        self.start, self.uptime = start, uptime
+        clock.t = _dt.datetime(*start) if start else _dt.datetime(2024, 5, 17, 12, 0, 0)
         SessionHandler.reset()          # fresh "process"
+        if uptime:
+            # a process that has already issued `uptime` ids: the only way to reach the 2^16-th / 2^32-th id of a history
+            SessionHandler.id = uptime
+            acc.counters["long_uptime_histories"] += 1
+        if start:
+            acc.counters["other_clock_era_histories"] += 1
         self.issued = {}
         self.msg = None
         self.kept = []
@@ -67,15 +74,21 @@ class History:
             acc.violation("session-id-not-utf8", "%r" % (sid_bytes,), {"trace": self.trace})
             return
         m = re.fullmatch(re.escape(identity) + r";(\d+);(\d+)(;.*)?", s)
-        if not m or int(m.group(1)) >= 2 ** 32 or int(m.group(2)) >= 2 ** 32:
-            acc.violation("session-id-malformed", "generated %r for identity %r (%s)" % (s, identity, how), {"trace": self.trace, "id": s})
+        wit = {"trace": list(self.trace), "id": s, "start": self.start, "uptime": self.uptime}
+        if not m:
+            acc.violation("session-id-malformed", "generated %r for identity %r (%s)" % (s, identity, how), wit)
+        elif int(m.group(1)) >= 2 ** 32:
+            acc.violation("session-id-malformed:high-exceeds-32-bits", "generated %r for identity %r (%s; clock %s)" % (s, identity, how, self.clock.t), wit)
+        elif int(m.group(2)) >= 2 ** 32:
+            acc.violation("session-id-malformed:low-exceeds-32-bits", "generated %r for identity %r (%s; %d ids issued before this history)" % (
+                s, identity, how, self.uptime), wit)
         if s in self.issued:
             prev = self.issued[s]
             key = "session-id-reused"
             if "upd" in how or "upd" in prev:
                 key = "session-id-reused-after-identity-switch"
             acc.violation(key, "Session-Id %r issued twice: first by step %s, again by step %s" % (s, prev, how),
-                          {"trace": list(self.trace), "id": s})
+                          wit)
         self.issued[s] = how
 
     def step(self, op):
@@ -169,8 +182,12 @@ def run_batch(b):
         acc.sample({"exhaustive_length": L, "first_ops": b["first"], "example": list(seq)})
     else:
         ops = OPS + ["sid2", "sid3", "upd2", "upd3", "upd4", "msg1", "msg2", "acct1", "t5", "t0.3", "new2", "nxt2", "nxt3", "raw1", "raw2"]
-        for _ in range(b["n"]):
-            h = History(acc, clock)
+        for k in range(b["n"]):
+            # every fourth history runs in another clock era (NTP seconds roll over on 2036-02-07 06:28:16) and/or
+            # in a process that has been up for a long time
+            start = rng.choice([None, (2036, 2, 7, 6, 28, 10), (2040, 1, 1, 0, 0, 0), (2106, 3, 1, 0, 0, 0)]) if k % 4 == 1 else None
+            uptime = rng.choice([0, 2 ** 16 - 3, 2 ** 31 - 3, 2 ** 32 - 4]) if k % 4 in (1, 2) else 0
+            h = History(acc, clock, start, uptime)
             L = rng.randrange(2, b["maxlen"])
             for _ in range(L):
                 h.step(rng.choice(ops))
@@ -196,15 +213,17 @@ def main(tier, seed):
     return harness.finish(PROP, tier, seed, "exploration", acc, RULE,
                           ["the library clock (bromelia._internal_utils.datetime) is replaced by a settable shim",
                            "each history starts from SessionHandler.reset() and a fresh id set (a fresh process)",
+                           "a process that has already issued 2^16-3 / 2^31-3 / 2^32-4 ids is produced by presetting SessionHandler.id right after "
+                           "reset(): 4*10^9 real generations are out of reach; clock eras after the NTP rollover of 2036 come from the clock shim",
                            "single-threaded histories: concurrent generation is not part of the statement's quantifier"],
                           t0, extra_cov={"distinct_nontrivial": d, "exhaustive_length": L},
-                          exhaustive=True, require_counters=("ids_generated", "bulk_updates", "bytes_passthrough"))
+                          exhaustive=True, require_counters=("ids_generated", "bulk_updates", "bytes_passthrough", "long_uptime_histories", "other_clock_era_histories"))
 
 
 def replay(w):
     acc = harness.Acc()
     clock = install_clock()
-    h = History(acc, clock)
+    h = History(acc, clock, w["witness"].get("start"), w["witness"].get("uptime", 0))
     for op in w["witness"]["trace"]:
         h.step(op)
     for v in acc.violations:
